@@ -366,6 +366,29 @@ def r5_clamps_and_siblings(ctx):
     rets = [r for r in returns_of(cd) if r.value is not None]
     ok = ok and len(rets) == 1 and dotted(rets[0].value) == "output"
     ctx.check(ok, cd.qual, "release bounded by the trapped charge, capture bounded by the empty traps" if ok else "clip_diff no longer bounds the exchanged charge on both sides (trapped charge can go negative / exceed capacity)", where=cd, node=cd.node)
+    # "trapped charge never negative": the bound is applied to EVERY exchange - in both persistence kernels the
+    # exchanged amount added to a species' trapped charge is, on every path through one iteration of the species
+    # loop (sa/paths.py), the result of clip_diff(diff, trapped_charge, empty_traps)
+    from sa.paths import enumerate_paths
+
+    for name in ("compute_simple_persistence", "compute_persistence"):
+        f = ctx.func(f"{PER}:{name}")
+        lps = [l for l in loops_in(f.node) if isinstance(l, ast.For) and enclosing_loop(l) is None and any(isinstance(s_, ast.AugAssign) and dotted(s_.target) == "trapped_charge" for s_ in walk_ordered(l))]
+        if not lps:
+            ctx.fail(f.qual + "#exchange-bounded", "the per-species update of the trapped charge was not found", where=f, node=f.node)
+            continue
+        bad = None
+        n_p = 0
+        for q_ in enumerate_paths(lps[0].body, containers=set()):
+            if q_.exit == "raise":
+                continue
+            n_p += 1
+            v_ = q_.env.get("trapped_charge")
+            clipped = v_ is not None and any(isinstance(x, ast.Call) and call_name(x) == "clip_diff" for x in ast.walk(v_))
+            if not clipped:
+                bad = q_
+                break
+        ctx.check(bad is None and n_p > 0, f.qual + "#exchange-bounded", "every exchange passes through clip_diff before it reaches the trapped charge" if bad is None else f"when {bad.cond_texts()[:2]} the exchanged charge is added to the trapped charge without clip_diff: a fast species can release more than it holds (negative trapped charge) or capture more than its empty traps", where=f, node=lps[0])
 
 
 def r6_clusters_land_in_their_pixel(ctx):
